@@ -57,6 +57,17 @@ Theorem cli_keeps_every_mention : forall A (is_empty : A -> bool) (args base : l
 Proof. exact (@cli_keeps_every_mention_lemma). Qed.
 Print Assumptions cli_keeps_every_mention.
 
+(* ---- header side of the merge: decided by ALL fetched profiles, not by the first one ---- *)
+Theorem default_sample_type_chunk_free : forall chs : list (list string),
+  first_nonempty (map first_nonempty chs) = first_nonempty (List.concat chs).
+Proof. exact first_nonempty_chunks. Qed.
+Print Assumptions default_sample_type_chunk_free.
+
+Theorem common_unit_is_the_finest : forall us : list Z, us <> [] ->
+  In (common_unit us) us /\ forall u, In u us -> (common_unit us <= u)%Z.
+Proof. exact common_unit_finest. Qed.
+Print Assumptions common_unit_is_the_finest.
+
 (* ---- the transport shared by the fetches of one run keeps no per-request state ---- *)
 (* a request's TLS outcome is that of the same request on a fresh transport, whatever went before *)
 Theorem transport_outcome_history_free : forall W (rs : list (W * tr_req)) st,
